@@ -562,7 +562,9 @@ def apply_mutation(diff_path, scratch):
         shutil.copy(src, dst)
         out[rel] = dst
     # apply hunks file by file
-    parts = re.split(r"(?m)^(?=--- )", txt)
+    # (a file header is a "--- " line directly followed by a "+++ " line: a removed SQL comment
+    # line also starts with "--- ")
+    parts = re.split(r"(?m)^(?=--- [^\n]*\n\+\+\+ )", txt)
     for part in parts:
         m = re.search(r"(?m)^\+\+\+ (?:b/)?(\S+)", part)
         if not m:
